@@ -52,11 +52,15 @@ func isPrintRanges() string {
 	return sb.String()
 }
 
-func quoteStream(rng *lib.Rng, nStrings int) {
+func quoteStream(rng *lib.Rng, nStrings int, all bool, seed uint64) {
 	out.Case("isprint "+isPrintRanges(), "ok", false, "quote:isprint-table")
 	const chunk = 8192
 	for lo := 0; lo < 0x110000; lo += chunk {
 		hi := lo + chunk - 1
+		// quick tier: the planes with assigned characters exhaustively, the rest sampled (one chunk in eight, chosen by the seed)
+		if !all && lo >= 0x40000 && lo != 0xe0000 && uint64(lo/chunk)%8 != seed%8 {
+			continue
+		}
 		h := md5.New()
 		for c := lo; c <= hi; c++ {
 			if c >= 0xd800 && c <= 0xdfff {
@@ -316,8 +320,13 @@ func isNumKind(k string) bool {
 // Returns "" when the spelling is none of the notations.
 func refLiteral(sp string) string {
 	s := strings.ReplaceAll(sp, "_", "")
-	if s == "" || strings.HasPrefix(sp, "_") || strings.HasPrefix(sp, "-_") {
+	if s == "" {
 		return ""
+	}
+	for i := 0; i < len(sp); i++ { // an underscore separates digits: it follows a digit or another underscore
+		if sp[i] == '_' && (i == 0 || !(sp[i-1] == '_' || (sp[i-1] >= '0' && sp[i-1] <= '9') || (sp[i-1] >= 'a' && sp[i-1] <= 'f') || (sp[i-1] >= 'A' && sp[i-1] <= 'F'))) {
+			return ""
+		}
 	}
 	digits := func(t string, base int) (*big.Int, bool) {
 		if t == "" {
@@ -626,14 +635,14 @@ func main() {
 	}
 	defer os.RemoveAll(tmpdir)
 	rng := lib.NewRng(args.Seed)
-	nData, nJSON, nQS, litLen, nLit := 2500, 1200, 1500, 4, 3000
+	nData, nJSON, nQS, litLen, nLit := 2000, 900, 1500, 4, 3000
 	if args.Tier == "thorough" {
 		nData, nJSON, nQS, litLen, nLit = 40000, 15000, 30000, 5, 60000
 	}
 	if args.Replay != "" {
 		replay(args.Replay)
 	} else {
-		quoteStream(rng.Fork(), nQS)
+		quoteStream(rng.Fork(), nQS, args.Tier == "thorough", args.Seed)
 		valueStream(rng.Fork(), nData, nJSON)
 		litStream(rng.Fork(), litLen, nLit)
 	}
